@@ -48,6 +48,13 @@ struct World {
       all.push_back(&lex.get_identifier(u8""));
       for (std::size_t i = all.size(); i > 1; --i) std::swap(all[i - 1], all[rng.below(i)]);
       names.assign(all.begin(), all.begin() + nn);
+      // template-ids whose template is named through an id-expression of an identifier of THIS pool: a specialization entered
+      // under such a name (beside the primary template its name refers to, or without one) is a declaration of its own
+      {
+         int added = 0;
+         for (std::size_t i = 0; i < names.size() && added < 2; ++i)
+            if (auto id = util::view<Identifier>(*names[i])) { names.push_back(&lex.get_template_id(*lex.make_id_expr(*id), *xl)); ++added; }
+      }
       const Type* pt[] = { &L.int_type(), &L.double_type(), &lex.get_pointer(L.int_type()), &lex.get_qualified(Qualifiers(1), L.int_type()),
                            cls, &L.class_type(), &L.typename_type(), &lex.get_reference(L.char_type()), &L.namespace_type() };
       int nt = 3 + int(rng.below(6));
